@@ -1252,6 +1252,42 @@ class ApiGen:
                 self.probe_storage(k)
             if k in self.slots:
                 self.free(k)
+        # configuration sequences: the most recent enabling call wins (also a smaller mask after a larger one); arguments with
+        # bits above the three user bits (the encryption bit among them) change nothing; a seed keeps working for the password
+        # operation, queries and serialization after its feature was disabled again
+        prev = self.mask
+        pw = r.choice(PASSWORDS[:8])
+        for first, second in ((1, 2), (7, 4), (5, 0)):
+            self.features(first)
+            k = self.create(feat=first & -first)
+            self.features(second)
+            k2 = self.create(feat=first & -first)        # refused unless the bit is in `second` too
+            if k2 is not None:
+                self.free(k2)
+            if k is not None and k in self.slots:
+                self.busy = {k}
+                self.crypt(k, pw)                         # still a seed: the flag toggles, the mask is applied
+                if k in self.slots:
+                    self.op('isenc %d' % k)
+                    self.probe_storage(k)
+                if k in self.slots:
+                    self.crypt(k, pw)
+                if k in self.slots:
+                    self.free(k)
+        for m in (0xFFFFFFFF, 16 | (prev & 7), 31, 0x18):
+            self.features(m)
+            k = self.create(feat=self.mask & 7)
+            if k is None:
+                continue
+            self.busy = {k}
+            self.crypt(k, pw)                             # an encrypted seed is supported whatever was enabled
+            if k in self.slots:
+                self.probe_roundtrip(k)
+            if k in self.slots:
+                self.probe_storage(k)
+            if k in self.slots:
+                self.free(k)
+        self.features(prev)
 
     # ------------------------------------------------------------ driver
     def run(self, nops, weights):
@@ -1265,6 +1301,9 @@ class ApiGen:
         self.probe_create_edges()
         names = list(weights)
         ws = [weights[n] for n in names]
+        # the deterministic edge probes above do not count against the budget of the random part
+        self.count('ops spent on the deterministic edge probes: %d' % len(self.s.ops))
+        nops += len(self.s.ops)
         while len(self.s.ops) < nops and not self.s.crashed:
             if len(self.slots) < 2 or r.random() < 0.1:
                 self.create()
